@@ -62,6 +62,8 @@ type C08Sc struct {
 	// TLS: the listener hands out (simulated) TLS connections: each server-side connection starts with a handshake
 	// that waits for the client's hello
 	TLS bool `json:"tls,omitempty"`
+	// RouteDiscover: the application routes Discover Versions itself; its handler may fail or panic like any other
+	RouteDiscover bool `json:"route_discover,omitempty"`
 }
 
 var c08Outcomes = []string{"ok", "ok", "ok", "et", "ep", "pe", "ps", "pS", "pi", "pn", "y2,ok", "sl300,ok", "sL300,ok", "sl5000,ok", "sL5000,ok", "y3,et",
@@ -174,6 +176,21 @@ func genC08(g *simrt.Tape, tier string) any {
 		}
 	}
 	sc.StalledShutdown = g.Draw(4) == 0
+	if g.Draw(5) == 0 {
+		sc.RouteDiscover = true
+		for i := range sc.Clients {
+			for k := range sc.Clients[i].Acts {
+				if r := sc.Clients[i].Acts[k].Req; r != nil {
+					routedDiscovery(r)
+				}
+			}
+		}
+		for i := range sc.HTTP {
+			if sc.HTTP[i].Req != nil {
+				routedDiscovery(sc.HTTP[i].Req)
+			}
+		}
+	}
 	if g.Draw(4) == 0 {
 		sc.TLS = true
 		for i := range sc.Clients {
@@ -546,6 +563,9 @@ func execC08(x *X, scAny any) {
 		}
 	}
 	w.tls = sc.TLS
+	if sc.RouteDiscover {
+		w.routeDiscover()
+	}
 	w.startServerWith(func(name string) simnet.EP {
 		ep := simnet.EP{Chunk: sc.Chunk, Capacity: sc.Capacity}
 		var idx int
